@@ -216,7 +216,11 @@ fn do_sink(rec: &Value) -> Value {
     };
     let r = guard(|| program.serialize(&mut sink));
     out["result"] = json!(match &r { Ok(Ok(())) => "ok", Ok(Err(_)) => "err", Err(_) => "panic" });
-    out["calls"] = Value::Array(sink.calls.iter().map(|(b, n)| json!({"req": b, "acc": n})).collect());
+    // per call: the bytes the sink took (a prefix of the request), the length of the request, the answer
+    out["calls"] = Value::Array(sink.calls.iter().map(|(b, n)| {
+        let taken: &[u8] = if *n > 0 { &b[..(*n as usize).min(b.len())] } else { &b[..0] };
+        json!({"req": taken, "len": b.len(), "acc": n})
+    }).collect());
     out["delivered"] = json!(sink.delivered);
     out
 }
